@@ -281,6 +281,13 @@ def load_with_ncc(params_path, ncc):
 
 
 def check(case):
+    # (see C13: spike depths of spikes without a positive feature part need the default error state)
+    feats = case['k'] == 'merged' or bool(case['spec']['pcf'])
+    with core.without(*(('fp', 'warn') if feats else ())):
+        return _check(case)
+
+
+def _check(case):
     info = {}
     f = case['factor']
     with env.scratch() as d:
